@@ -60,6 +60,13 @@ def J(test, checks=None, shards=1, race=False, env=None, procs=None, timeout=900
 
 
 PROPS = {
+    "C06": dict(
+        level="exploration",
+        rule="rapid state machines over a real controller fed by the fake API server and a generated tree (depth <= 3) mixing Subscribe/SubscribeWithFilter/SubscribeForFilter/Clone/CloneWithFilter/CloneForFilter: operations put/del (labels move objects in and out of filters), attach, Refilter over a 10-filter family (equal, overlapping, disjoint, accept-all, accept-none, non-comparable FN), lost watch events followed by gated relists. Quiet mode: double-marker barrier after every operation, then every live node's cache must equal the conjunction of the reference predicates on its path applied to the controller's view, its strict mirror must equal its cache, readiness must match the readiness model. Racy mode: server traffic and Refilter scripts run concurrently under logger-driven schedule perturbation, oracles at a final barrier. Non-trivial = tree with a filtered node below a filtered node, a Refilter on a ready node and an object that crossed a filter boundary by update; distinct = hash of the operation history.",
+        assumptions=["controller-level and node filters are wrapped as Or(f, NSName(zz/*)) so that barrier markers pass; oracles ignore namespace zz", "interleavings are perturbed (logger yields/sleeps, GOMAXPROCS), not enumerated"],
+        quick=[J("TestC06_Quiet", checks=500, shards=5), J("TestC06_Racy", checks=500, shards=5, procs=[2, 4, 8, 16, 1])],
+        thorough=[J("TestC06_Quiet", checks=12000, shards=8, timeout=2400), J("TestC06_Racy", checks=12000, shards=8, procs=[1, 2, 4, 16], timeout=2400)],
+    ),
     "C15": dict(
         level="exploration",
         rule="rapid-generated writer scripts (10-160 mutating calls: whole-generation syncs, refilters toggling between accept-all and a label filter, single-object updates) over 1-6 objects with 1-12 concurrent reader goroutines doing List/Get; every read must equal the scripted cache content at some call index between the writer's finished-counter read before and started-counter read after the call, indices per reader never decrease, returned slices are scribbled over; built with -race (a race report fails the check). Non-trivial = >= 4 readers, >= 50 writer calls and >= 1 refilter; distinct = (objects, readers, script).",
